@@ -41,6 +41,14 @@ class Script:
         self.reset([], {}, None)
 
     def reset(self, actions, targets, absval):
+        if getattr(self, "objs", None):
+            # whatever the previous scenario left suspended is finalised NOW (reference counts), not in the middle of this one
+            self.objs.clear()
+            self.keep.clear()
+        if getattr(self, "used_threads", False):
+            import gc
+            gc.collect()                 # (frames of finished threads may sit in reference cycles)
+        self.used_threads = False
         self.actions = list(actions)     # model actions still to perform
         self.pos = 0
         self.targets = targets           # name -> [callable maker] (never bound to a local at call time)
@@ -235,7 +243,8 @@ class Script:
             if op == "Resume":
                 self.emit(ev="Resume", fid=fid, caller=caller, catch=a.get("catch", True), drawn=False, draw=self.cur_draw)
                 ev, mark = self.events[-1], len(self.draw_log)
-                try:
+
+                def step():
                     if hasattr(obj, "gi_frame"):
                         next(obj)
                     elif hasattr(obj, "ag_frame"):
@@ -246,6 +255,13 @@ class Script:
                         self.anext[fid] = an
                     else:
                         obj.send(None)
+                try:
+                    if self.thread_profiler is not None and not self.stack:
+                        # the program resumes this generator / coroutine on ANOTHER thread, in which the same tracer is
+                        # installed (threading.setprofile): one step, joined at once - the program stays sequential
+                        self._in_thread(step)
+                    else:
+                        step()
                 except (StopIteration, StopAsyncIteration):
                     pass
                 finally:
@@ -300,6 +316,30 @@ class Script:
                     self.stack.pop()
                 self._finish_raising(caller)
             raise
+
+    thread_profiler = None
+
+    def _in_thread(self, fn):
+        import threading
+        box = []
+
+        def run():
+            sys.setprofile(self.thread_profiler)
+            try:
+                fn()
+            except BaseException as e:      # handed back to the resuming thread
+                box.append(e)
+            finally:
+                sys.setprofile(None)
+        self.used_threads = True
+        t = threading.Thread(target=run)
+        t.start()
+        t.join()
+        if box:
+            e = box.pop()
+            # (no traceback: it would tie the thread's frames into a reference cycle, and generators of THIS scenario would
+            # be finalised by the garbage collector in the middle of the next one)
+            raise e.with_traceback(None)
 
     def delegate(self, a):
         """The running generator / coroutine is about to `yield from` / `await` the created object a["id"]."""
